@@ -177,7 +177,9 @@ def oracleNet (want : String) (o : ONet) (op obs : String) : ONet × Option (Str
         match sOld.lastReceipt with
         | some t0 =>
           let n := S.length
-          let bound : Int := bitsT o sOld.ttrBits + (n : Int) * (bitsT o (3 * o.slotBits) + bitsT o (11 * 300))
+          -- the target rotation time of the ring is the largest TTR configured (C13 assumes consistent bus
+          -- parameters; with different TTRs a station with a larger one may legitimately hold the token longer)
+          let bound : Int := bitsT o o.maxTtr + (n : Int) * (bitsT o (3 * o.slotBits) + bitsT o (11 * 600))
           if enteringUse ∧ now - t0 > bound then
             some ("C13", s!"station #{sOld.addr} got the token again only after {now - t0} us (bound {bound} us)")
           else none
